@@ -128,7 +128,7 @@ def reference(cfg: dict[str, Any], req: dict[str, Any], cred: str, facts: dict[s
         maybe = True
         allowed.add(415)
         defects.append("cenc:identity?")
-    elif cenc in ("zstd_corrupt", "gzip_corrupt"):
+    elif cenc in ("zstd_corrupt", "gzip_corrupt", "zstd_huge"):
         d(f"cenc:{cenc}", 400)
         if cap is not None:
             allowed.add(413)  # a corrupt frame may *declare* an oversize payload
